@@ -15,13 +15,16 @@ CONSTANTS
   L,          \* maximal number of lines
   D,          \* maximal nesting depth
   E,          \* maximal number of elements
-  Kinds,      \* set of <<status, unwrap>> allowed, status \in {"R","P","S","U","T","F"}
+  Kinds,      \* set of <<status, unwrap>> allowed, status \in {"R","P","S","SP","SF","U","T","F"} (S: skip on a ready marker, SP / SF: skip on a pending marker / time limit)
   Unit,       \* indentation unit (sequence of characters)
   Base,       \* indentation (in units) of depth 0
   FreeInd,    \* set of indentations (in units) a code line / tag line may choose in addition to Base + depth
   WsLens,     \* set of lengths of whitespace-only lines (in characters of Unit[1]); {} = none
   Blank,      \* TRUE: empty lines allowed
   Suffix,     \* text appended to every code line (e.g. a multi-byte character), <<>> for none
+  FlagVal,    \* spelling appended to the flag attributes skip / unwrap-block: <<>> (bare) or e.g. ='1' (valued flag)
+  QuoteCh,    \* quote character of attribute values: 39 (') or 34 (")
+  FlagsFirst, \* TRUE: the flag attributes come before name / to instead of after them
   TagSep,     \* separator in front of the c='e<n>' attribute of opening tags: <<SP>> or e.g. a line break plus
               \* indentation (tags spanning two lines)
   EOL,        \* line terminator, <<NL>> or <<CR, NL>> (CRLF documents: the code knows only NL, CR is an ordinary character)
@@ -83,22 +86,25 @@ Next == /\ Len(lines) < L
 \* a document can only be completed if the open elements can still be closed
 Feasible == Len(lines) + Len(stack) <= L
 
-Q == <<39>>
+Q == <<QuoteCh>>
 Str(s) == s
 TKinds == {"T1", "T2", "T3", "T4"}
 MKinds == {"M1", "M2", "M3", "M4"}
 KIdx(k) == IF k \in {"T1", "M1"} THEN 1 ELSE IF k \in {"T2", "M2"} THEN 2 ELSE IF k \in {"T3", "M3"} THEN 3 ELSE 4
-TagName(kd) == IF kd[1] \in {"R", "P", "S"} \cup MKinds THEN RM ELSE IF kd[1] \in {"T", "F"} \cup TKinds THEN TL ELSE <<120, 120>>   \* xx
-OpenTag(kd, n) ==
-  DS \o TagName(kd)
-     \o (IF kd[1] \in {"R", "S", "U"} THEN <<32, 110, 97, 109, 101, 61>> \o Q \o <<97>> \o Q                 \* name='a'
-         ELSE IF kd[1] = "P" THEN <<32, 110, 97, 109, 101, 61>> \o Q \o <<98>> \o Q                        \* name='b'
+TagName(kd) == IF kd[1] \in {"R", "P", "S", "SP"} \cup MKinds THEN RM ELSE IF kd[1] \in {"T", "F", "SF"} \cup TKinds THEN TL ELSE <<120, 120>>   \* xx
+FlagAttrs(kd) ==
+     (IF kd[1] \in {"S", "SP", "SF"} THEN <<32, 115, 107, 105, 112>> \o FlagVal ELSE <<>>)
+  \o (IF kd[2] THEN <<32, 117, 110, 119, 114, 97, 112, 45, 98, 108, 111, 99, 107>> \o FlagVal ELSE <<>>)
+CondAttr(kd) ==
+         IF kd[1] \in {"R", "S", "U"} THEN <<32, 110, 97, 109, 101, 61>> \o Q \o <<97>> \o Q                 \* name='a'
+         ELSE IF kd[1] \in {"P", "SP"} THEN <<32, 110, 97, 109, 101, 61>> \o Q \o <<98>> \o Q             \* name='b'
          ELSE IF kd[1] = "T" THEN <<32, 116, 111, 61>> \o Q \o PastTo \o Q
          ELSE IF kd[1] \in TKinds THEN <<32, 116, 111, 61>> \o Q \o Tos[KIdx(kd[1])] \o Q
          ELSE IF kd[1] \in MKinds THEN <<32, 110, 97, 109, 101, 61>> \o Q \o Names[KIdx(kd[1])] \o Q
-         ELSE <<32, 116, 111, 61>> \o Q \o FutureTo \o Q)
-     \o (IF kd[1] = "S" THEN <<32, 115, 107, 105, 112>> ELSE <<>>)
-     \o (IF kd[2] THEN <<32, 117, 110, 119, 114, 97, 112, 45, 98, 108, 111, 99, 107>> ELSE <<>>)
+         ELSE <<32, 116, 111, 61>> \o Q \o FutureTo \o Q
+OpenTag(kd, n) ==
+  DS \o TagName(kd)
+     \o (IF FlagsFirst THEN FlagAttrs(kd) \o CondAttr(kd) ELSE CondAttr(kd) \o FlagAttrs(kd))
      \o TagSep \o <<99, 61>> \o Q \o <<101>> \o Digits(n) \o Q                                                 \* c='e<n>'
      \o DE
 CloseTag(kd) == DS \o <<47>> \o TagName(kd) \o DE
